@@ -12,3 +12,4 @@ def rules(ctx):
     S.full_range_rules(ctx)
     S.refcount_rules(ctx)
     S.cache_reset_rules(ctx)
+    S.header_codec_rules(ctx)
